@@ -400,6 +400,152 @@ fn b64_one(b: &[u8], st: &mut Stats) {
 }
 
 // ------------------------------------------------------------------------------------------
+// named unknown members: every identifier-like string literal of the types crate, used as the
+// name of a member an object does not declare.  Such a member is ignored: (1) added to the full
+// document it changes nothing; (2) given the value of a declared optional member M in a document
+// without M, the document still parses as "M absent" – i.e. the name is not secretly another
+// spelling of M.  The spellings the pinned tree documents as deliberate are listed here.
+const DOCUMENTED_ALIASES: [(&str, &str); 1] = [("get", "allowList")];
+
+/// Members the WebAuthn dictionaries (and this library's documented additions) declare for the
+/// object at `path`, whether or not the canonical document carries them.
+fn declared(kind: &str, path: &str) -> &'static [&'static str] {
+    let last = path.rsplit('/').find(|s| s.parse::<usize>().is_err()).unwrap_or("");
+    if path.contains("/evalByCredential/") {
+        return &["first", "second"];
+    }
+    match last {
+        "" => &["publicKey"],
+        "publicKey" if kind == "create" => &["rp", "user", "challenge", "pubKeyCredParams", "timeout", "excludeCredentials", "authenticatorSelection", "hints", "attestation", "attestationFormats", "extensions"],
+        "publicKey" => &["challenge", "timeout", "rpId", "allowCredentials", "userVerification", "hints", "attestation", "attestationFormats", "extensions"],
+        "rp" => &["id", "name"],
+        "user" => &["id", "name", "displayName"],
+        "pubKeyCredParams" => &["type", "alg"],
+        "excludeCredentials" | "allowCredentials" => &["type", "id", "transports"],
+        "authenticatorSelection" => &["authenticatorAttachment", "residentKey", "requireResidentKey", "userVerification"],
+        "extensions" => &["credProps", "prf", "prfAlreadyHashed"],
+        "prf" | "prfAlreadyHashed" => &["eval", "evalByCredential"],
+        "eval" => &["first", "second"],
+        _ => &[],
+    }
+}
+
+pub fn member_names() -> Vec<String> {
+    let mut v: Vec<String> = crate::core::dict::source_literals(&["passkey-types", "passkey-client"], 40)
+        .into_iter()
+        .filter_map(|l| String::from_utf8(l).ok())
+        .filter(|t| t.len() >= 2 && t.chars().next().is_some_and(|c| c.is_ascii_alphabetic()) && t.chars().all(|c| c.is_ascii_alphanumeric() || c == '_' || c == '-'))
+        .collect();
+    // near misses of the declared names: other spellings a compatibility shim might accept
+    for kind in ["create", "get"] {
+        let mut objs = vec![];
+        object_paths(&canonical(kind), String::new(), &mut objs);
+        for (p, _) in objs {
+            if let Some(Value::Object(o)) = canonical(kind).pointer(&p) {
+                for k in o.keys() {
+                    let snake: String = k.chars().flat_map(|c| if c.is_ascii_uppercase() { vec!['_', c.to_ascii_lowercase()] } else { vec![c] }).collect();
+                    v.push(snake);
+                    v.push(k.replace("Credentials", "List"));
+                    v.push(k.replace("Credentials", "Creds"));
+                    v.push(format!("{k}s"));
+                    let mut cap = k.clone();
+                    if let Some(f) = cap.get_mut(0..1) {
+                        f.make_ascii_uppercase();
+                    }
+                    v.push(cap);
+                }
+            }
+        }
+    }
+    v.sort();
+    v.dedup();
+    v
+}
+
+fn named_members(stats: &mut Stats, threads: usize) {
+    let names = member_names();
+    let mut work: Vec<(String, String, String)> = vec![]; // (kind, object path, name)
+    for kind in ["create", "get"] {
+        let doc = canonical(kind);
+        let mut objs = vec![];
+        object_paths(&doc, String::new(), &mut objs);
+        for (p, _) in objs {
+            let Some(Value::Object(o)) = doc.pointer(&p) else { continue };
+            for n in &names {
+                if o.contains_key(n) || declared(kind, &p).contains(&n.as_str()) || DOCUMENTED_ALIASES.contains(&(kind, n.as_str())) {
+                    continue;
+                }
+                work.push((kind.to_string(), p.clone(), n.clone()));
+            }
+        }
+    }
+    let st = par::sweep_cases(&work, threads, |(kind, path, name), st| {
+        let case = json!({"named_member": {"doc": kind, "object": path, "name": name}});
+        for f in named_member_one(kind, path, name, &case) {
+            st.finding(f);
+        }
+        st.case(&(kind, path, name), true, "named-unknown-member");
+    });
+    stats.count("named_unknown_member_cases", st.evaluations);
+    stats.merge(st);
+}
+fn named_member_one(kind: &str, path: &str, name: &str, case: &Value) -> Vec<Finding> {
+    let mut fs = vec![];
+    let doc = canonical(kind);
+    let Ok(Ok(base)) = parse_debug(kind, &doc.to_string()) else { return fs };
+    let Some(Value::Object(obj)) = doc.pointer(path) else { return fs };
+    // (1) added to the full object with values of several shapes
+    for (i, v) in [json!([]), json!([{"type": "public-key", "id": "AAAA"}]), json!("x"), json!(7), json!({}), json!(null), json!(true)].into_iter().enumerate() {
+        let mut d = doc.clone();
+        if let Some(Value::Object(o)) = d.pointer_mut(path) {
+            o.insert(name.to_string(), v);
+        }
+        match parse_debug(kind, &d.to_string()) {
+            Err(p) => fs.push(Finding::new(format!("doc={kind}/kind=panic/named-member"), format!("member {name:?} in {path:?}: {p}"), case.clone())),
+            Ok(Err(e)) => fs.push(Finding::new(format!("doc={kind}/kind=undeclared-member-rejected"), format!("undeclared member {name:?} (value shape {i}) in object {path:?} makes the document fail: {e}"), case.clone())),
+            Ok(Ok(got)) => {
+                if got != base {
+                    fs.push(Finding::new(format!("doc={kind}/kind=undeclared-member-changes-value"), format!("undeclared member {name:?} (value shape {i}) in object {path:?} changes the parsed value"), case.clone()));
+                }
+            }
+        }
+        if !fs.is_empty() {
+            return fs;
+        }
+    }
+    // (2) standing in for each declared member of the object
+    for (m, val) in obj.iter() {
+        let mut without = doc.clone();
+        if let Some(Value::Object(o)) = without.pointer_mut(path) {
+            o.shift_remove(m);
+        }
+        let want = parse_debug(kind, &without.to_string());
+        let mut d = without.clone();
+        if let Some(Value::Object(o)) = d.pointer_mut(path) {
+            o.insert(name.to_string(), val.clone());
+        }
+        let got = parse_debug(kind, &d.to_string());
+        match (want, got) {
+            (Ok(Ok(w)), Ok(Ok(g))) if w != g => {
+                fs.push(Finding::new(format!("doc={kind}/kind=undeclared-member-read-as-declared"), format!("in object {path:?} the undeclared member {name:?} carrying the value of {m:?} is not ignored: the document parses differently from the one without {m:?}"), case.clone()));
+                return fs;
+            }
+            (Ok(Err(_)), Ok(Ok(_))) => {
+                fs.push(Finding::new(format!("doc={kind}/kind=undeclared-member-read-as-declared"), format!("in object {path:?} the required member {m:?} is missing, yet the document parses once the undeclared member {name:?} carries its value"), case.clone()));
+                return fs;
+            }
+            (Ok(Ok(_)), Ok(Err(e))) => {
+                fs.push(Finding::new(format!("doc={kind}/kind=undeclared-member-rejected"), format!("undeclared member {name:?} with the value of {m:?} in object {path:?}: {e}"), case.clone()));
+                return fs;
+            }
+            (_, Err(p)) => fs.push(Finding::new(format!("doc={kind}/kind=panic/named-member"), p, case.clone())),
+            _ => {}
+        }
+    }
+    fs
+}
+
+// ------------------------------------------------------------------------------------------
 // emitted credentials re-parse
 
 fn emitted(stats: &mut Stats) {
@@ -667,6 +813,7 @@ pub fn run(ctx: &Ctx) -> Result<Run, String> {
     }
     b64_identity(ctx, &mut stats);
     emitted(&mut stats);
+    named_members(&mut stats, ctx.threads);
     for case in client_data_cases() {
         stats.case(&case.to_string(), true, "client-data-order");
         for f in client_data_one(&case) {
@@ -681,7 +828,7 @@ pub fn run(ctx: &Ctx) -> Result<Run, String> {
     }
     let mut run = Run::from_stats(
         "exploration",
-        "creation and request options: all 256 presence patterns of the optional members x one presentation change at a time (each binary member as array / base64url +- padding / base64 +- padding, timeout and alg as number / numeric string / integral float / float string, an unknown scalar/object/array member at every position of every object, an unknown string for every enumeration, an unknown entry at every index of every lenient list incl. pubKeyCredParams entries with an unknown alg in every member order and with trailing unknown members); thorough: all pairs of changes on the full document. Oracle: Debug of the parsed value equals that of the canonical presentation (unknown enum = member absent, unknown list entry = entry absent). Plus base64url encode/decode identity on all byte strings up to length 2 (3 thorough) and patterned lengths 4..64 against an own RFC 4648 codec; every credential emitted by 72 register+authenticate ceremonies re-parsed from its JSON; CollectedClientData member order for 3 extra-data types x 16 orders of 0..3 unknown members x crossOrigin x type, and the client data emitted by Client::register/authenticate for five caller-supplied extras with a standard member's name at each position. Non-trivial = distinct case with at least one presentation change / non-empty input",
+        "creation and request options: all 256 presence patterns of the optional members x one presentation change at a time (each binary member as array / base64url +- padding / base64 +- padding, timeout and alg as number / numeric string / integral float / float string, an unknown scalar/object/array member at every position of every object, an unknown string for every enumeration, an unknown entry at every index of every lenient list incl. pubKeyCredParams entries with an unknown alg in every member order and with trailing unknown members); thorough: all pairs of changes on the full document. Oracle: Debug of the parsed value equals that of the canonical presentation (unknown enum = member absent, unknown list entry = entry absent). Named unknown members: every identifier-like string literal of the types and client crates (and near-miss spellings of the declared names) as the name of an undeclared member of every object, with seven value shapes, and standing in for each declared member of that object (it must stay ignored; the one spelling the pinned tree documents, allowList, is exempt). Plus base64url encode/decode identity on all byte strings up to length 2 (3 thorough) and patterned lengths 4..64 against an own RFC 4648 codec; every credential emitted by 72 register+authenticate ceremonies re-parsed from its JSON; CollectedClientData member order for 3 extra-data types x 16 orders of 0..3 unknown members x crossOrigin x type, and the client data emitted by Client::register/authenticate for five caller-supplied extras with a standard member's name at each position. Non-trivial = distinct case with at least one presentation change / non-empty input",
         true,
         stats,
     );
@@ -695,6 +842,9 @@ pub fn replay(ctx: &Ctx, case: &Value) -> Result<Vec<Finding>, String> {
         let mut st = Stats::new();
         b64_one(&b, &mut st);
         return Ok(st.findings.into_values().map(|x| x.0).collect());
+    }
+    if let Some(e) = case.get("named_member") {
+        return Ok(named_member_one(e["doc"].as_str().unwrap_or(""), e["object"].as_str().unwrap_or(""), e["name"].as_str().unwrap_or(""), case));
     }
     if let Some(e) = case.get("emitted") {
         let org: Org = serde_json::from_value(e["org"].clone()).map_err(|e| e.to_string())?;
